@@ -1121,6 +1121,12 @@ def program_world(rec, oid: Oids, heap: dict, classes: list, partial_module_root
                 # the alias of a local class is bound to the Annotated[...] form of the annotation itself (it forwards attribute access
                 # to the class): the name denotes the annotation, not another class
                 out["expect"].append([alias, [], oid(bound)])
+            elif (bound is not c and isinstance(bound, type) and isinstance(c, type) and bound.__qualname__ == c.__qualname__
+                  and bound.__module__ == c.__module__ and "__slots__" in c.__dict__ and "__slots__" not in bound.__dict__):
+                # @dataclass(slots=True) re-creates the class after the mixin has compiled it: the class's own methods keep the
+                # alias of the pre-slots original (used for its variants registry only); not another user class
+                out["expect"].append([alias, [], oid(bound)])
+                out["pre_slots"] = out.get("pre_slots", 0) + 1
             else:
                 out["expect"].append([alias, [], oid(c)])
     return out
